@@ -253,7 +253,9 @@ impl Repo {
             let msg = format!("c{i}");
             // the author date deliberately differs from the committer date (amended / rebased commits): "commit time" is %ct
             let author = if dates[i] > 43_200_000 { dates[i] - 43_200_000 } else { dates[i] + 43_200_000 };
-            s += &format!("commit refs/heads/zztmp\nmark :{}\nauthor a <a@a> {} +0900\ncommitter v <v@v> {} +0000\ndata {}\n{}\n", i + 1, author, dates[i], msg.len(), msg);
+            // the committer line records a UTC offset next to the instant (the committer's zone at the time): it is not part of "the commit time"
+            let ctz = ["+0530", "-0800", "+1400", "+0000", "-1200"][i % 5];
+            s += &format!("commit refs/heads/zztmp\nmark :{}\nauthor a <a@a> {} +0900\ncommitter v <v@v> {} {ctz}\ndata {}\n{}\n", i + 1, author, dates[i], msg.len(), msg);
             if let Some(p) = ps.first() { s += &format!("from :{}\n", p + 1); }
             for p in ps.iter().skip(1) { s += &format!("merge :{}\n", p + 1); }
             // every third commit is empty (tree identical to its first parent, as `git commit --allow-empty`, "ci: trigger"
@@ -310,7 +312,7 @@ impl Repo {
                 let key = (t.name.clone(), t.target);
                 if !self.tag_objects.contains_key(&key) {
                     // tagger date deliberately differs from the commit date (40 days later: another day, month and often year)
-                    let body = format!("object {}\ntype commit\ntag {}\ntagger v <v@v> {} +0000\n\nannotated\n", self.shas[t.target], t.name, self.dates[t.target] + 3_456_777);
+                    let body = format!("object {}\ntype commit\ntag {}\ntagger v <v@v> {} -0930\n\nannotated\n", self.shas[t.target], t.name, self.dates[t.target] + 3_456_777);
                     let mut id = git(&self.dir, &["hash-object", "-t", "tag", "-w", "--stdin"], Some(body.as_bytes())).trim().to_string();
                     // nested annotated tag: further tag objects, each pointing at the previous one (inner names are not refs)
                     for lvl in 1..self.nest_depth {
